@@ -192,7 +192,7 @@ def plan(tier):
     out.append(('wrapped-u1', w, dict(nsub=1, compressed=False, distinct=True, compiled=True), 0))
     out.append(('wrapped-c2', w if tier == 'thorough' else w[::3], dict(nsub=2, compressed=True, compiled=True), 0))
     # class-33 elements as ordinary members after a finished quality-information / marker block
-    t33 = list(BM.trailing_class33(L))
+    t33 = list(BM.trailing_class33(L)) + list(BM.trailing_class33_after_chain(L))
     out.append(('trailing-class33-u1', t33, dict(nsub=1, compressed=False, distinct=True, compiled=True), 0))
     out.append(('trailing-class33-c2', t33, dict(nsub=2, compressed=True, distinct=True), 0))
     if tier == 'thorough':
